@@ -43,6 +43,30 @@ theorem startOnMoof_opens (st : St) (it : Item) (sidxOf : Item → Option Sidx) 
     (h : addChild st it sidxOf = some st') : st'.segs.length = st.segs.length + 1 :=
   Segments.startOnMoof_opens st it sidxOf hk hs ht hf hopen st' h
 
+/-- **several top-level sidx boxes delimit together**: segment number `k` of the file starts at `pos` exactly when
+    `pos` is the `k`-th of the reference starts listed by all top-level sidx boxes in order (each box's references
+    running from its own anchor point, a box counted up to its first reference_type 1 entry) — the reference counter
+    of `startSegmentIfNeeded` runs on from one box to the next -/
+theorem multi_sidx_delimits (sidxs : List Sidx) (pos k : Nat) :
+    sidxStart sidxs pos k = true ↔ (allStarts sidxs)[k]? = some pos :=
+  Segments.sidxStart_spec sidxs pos k
+
+/-- … so in a sidx-delimited file a moof (not completing an emsg-opened fragment) opens a new segment iff it sits at
+    the next listed reference start, whichever box lists it -/
+theorem sidx_moof_step (st : St) (it : Item) (sidxOf : Item → Option Sidx) (hk : it.kind = .moof)
+    (hs : st.sidxs ≠ []) (hne : st.segs ≠ []) (hop : isOpen st = false) (st' : St)
+    (h : addChild st it sidxOf = some st') :
+    st'.segs.length =
+      st.segs.length + (if (allStarts st.sidxs)[st.segs.length]? = some it.pos then 1 else 0) :=
+  Segments.sidx_moof_step st it sidxOf hk hs hne hop st' h
+
+/-- non-vacuity: two boxes (anchors 100 and 130, the second one behind 30 bytes of media), 2 + 2 references; the
+    third segment is the first reference of the second box -/
+example : allStarts [⟨100, [(0, 10), (0, 20)]⟩, ⟨130, [(0, 5), (0, 7)]⟩] = [100, 110, 130, 135] := by decide
+example : sidxStart [⟨100, [(0, 10), (0, 20)]⟩, ⟨130, [(0, 5), (0, 7)]⟩] 130 2 = true := by decide
+/-- a parent box of reference_type 1 entries contributes no segment starts -/
+example : allStarts [⟨60, [(1, 20), (1, 20)]⟩, ⟨100, [(0, 10)]⟩, ⟨110, [(0, 5)]⟩] = [100, 110] := by decide
+
 /-- **the index tiles the media**: when the segments are contiguous, reference `i` (offset = sum of the earlier
     referenced sizes from the anchor) starts at the first byte of segment `i`, and the references end where the last
     segment ends -/
